@@ -1512,3 +1512,443 @@ func init() {
 		Gen:  c03BigValues,
 	})
 }
+
+// ---- program-shapes -----------------------------------------------------------------------
+//
+// A fault in the input is reported whatever the program looks like: programs without any rule
+// that looks at the input (only BEGIN rules, only END rules, only functions, nothing at all,
+// only a pattern that is never true) still decode every input, and the run fails on a
+// malformed / truncated / unreadable one. The only legitimate way not to reach a fault is an
+// `exit` executed before the faulty value is decoded.
+
+type c03Shape struct {
+	kind string
+	prog string
+	// exitAt: the run ends by `exit` — 0 = in a BEGIN rule (no input is decoded at all),
+	// k > 0 = while the k-th top-level value (counted over all files) is processed; -1 = never
+	exitAt int
+}
+
+var c03Shapes = []c03Shape{
+	{"begin-only", `BEGIN { print "start" }`, -1},
+	{"begin-only", "BEGIN { x = 1 }\nBEGIN { print \"start\", x }", -1},
+	{"begin-only", `BEGIN { }`, -1},
+	{"begin-only", "BEGIN { for (i = 0; i < 3; i++) print \"start\", i }", -1},
+	{"begin+functions", "function f(a) { print \"start\", a }\nBEGIN { f(1) }", -1},
+	{"begin+functions", "BEGIN { print g(2) }\nfunction g(a) { return a * 2 }", -1},
+	{"end-only", `END { print "END", 1 }`, -1},
+	{"end-only", "END { print \"END\", 1 }\nEND { print \"END\", 2 }", -1},
+	{"begin+end", "BEGIN { print \"start\" }\nEND { print \"END\", 1 }", -1},
+	{"functions-only", `function f(a) { return a }`, -1},
+	{"functions-only", "function f(a) { print a }\nfunction g() { exit }", -1},
+	{"empty", ``, -1},
+	{"empty", " \n", -1},
+	{"empty", "# nothing here\n", -1},
+	{"beginfile-only", `BEGINFILE { print "B", $file }`, -1},
+	{"beginfile-only", `BEGINFILE { n++ }`, -1},
+	{"endfile-only", `ENDFILE { print "E", $file }`, -1},
+	{"endfile-only", `ENDFILE { }`, -1},
+	{"false-pattern", `false { print "never" }`, -1},
+	{"false-pattern", `1 == 2 { print "never" }`, -1},
+	{"false-pattern", `0`, -1},
+	{"false-pattern", `"" { print "never" }`, -1},
+	{"false-pattern", `null`, -1},
+	{"false-pattern", "BEGIN { print \"start\" }\nfalse", -1},
+	{"pattern", `{ print "v", $ }`, -1},
+	{"exit-in-begin", `BEGIN { exit }`, 0},
+	{"exit-in-begin", `BEGIN { print "start"; exit }`, 0},
+	{"exit-in-begin", "BEGIN { if (1) exit\n print \"unreachable\" }", 0},
+	{"exit-in-begin", "function q() { exit }\nBEGIN { q() }", 0},
+	{"exit-in-begin", "BEGIN { exit }\nEND { print \"END\", 1 }", 0},
+	{"exit-in-begin", "BEGIN { print \"start\" }\nBEGIN { exit }\n{ print \"v\", $ }", 0},
+	{"exit-at-value", `BEGINFILE { exit }`, 1},
+	{"exit-at-value", `BEGINFILE { print "B"; if (++n == 2) exit }`, 2},
+	{"exit-at-value", `ENDFILE { print "E"; if (++n == 3) exit }`, 3},
+	{"exit-at-value", "BEGIN { print \"start\" }\nBEGINFILE { n++ }\nENDFILE { if (n == 2) exit }\nEND { print \"END\", n }", 2},
+}
+
+// c03ShapeInput: 1-3 files, one of them faulty (or none); returns the files, the index of
+// the faulty file (-1: none), the files of the reference run (everything complete before the
+// fault) and how many top-level values are complete before the fault.
+func c03ShapeInput(r *rand.Rand) (files []File, faulty int, ref []File, complete int, what string) {
+	names := []string{"a.json", "b.json", "c.json"}
+	nf := pick(r, []int{1, 1, 1, 2, 2, 3})
+	faulty = r.Intn(nf)
+	if chance(r, 0.12) {
+		faulty = -1
+	}
+	for f := 0; f < nf; f++ {
+		var data []byte
+		for {
+			data = c03Stream(r, r.Intn(4), false)
+			if _, ok := c03Scan(data); ok && len(data) <= 60 {
+				break
+			}
+		}
+		fl := File{Name: names[f], Data: data}
+		if f != faulty {
+			files = append(files, fl)
+			continue
+		}
+		switch k := r.Intn(10); {
+		case k < 3: // stray text / corruption
+			bad := data
+			for tries := 0; ; tries++ {
+				if len(data) == 0 {
+					bad = []byte(pick(r, []string{"]", " x", "}", ","}))
+					break
+				}
+				bad = c03Corrupt(r, data)
+				if _, ok := c03Scan(bad); !ok {
+					break
+				}
+				if tries > 20 {
+					bad = append(append([]byte{}, data...), " ] "...)
+					break
+				}
+			}
+			fl.Data, what = bad, "corrupted"
+		case k < 5:
+			fl.Data, what = []byte(pick(r, c03ShortStreams[:36])), "from the pool of short streams"
+			if _, ok := c03Scan(fl.Data); ok {
+				fl.Data = append(append([]byte{}, fl.Data...), pick(r, []string{" x", "]", " nul", "\"", "\xef\xbb\xbf"})...)
+			}
+		case k < 7: // truncated inside a value
+			whole := append(append([]byte{}, data...), pick(r, []string{`{"a": [1, 2, {"b": "text"}]}`, `[1, [2, [3]], "abc"]`, `"a string"`, `tru`, `-`})...)
+			cut := len(data) + 1 + r.Intn(len(whole)-len(data))
+			if cut > len(whole) {
+				cut = len(whole)
+			}
+			fl.Data, what = whole[:cut], "truncated"
+			if _, ok := c03Scan(fl.Data); ok {
+				fl.Data = append(fl.Data, '[')
+			}
+		case k < 8: // unreadable from the first byte (what a directory is for the binary)
+			fl.Data, fl.IOErr, what = nil, true, "unreadable"
+		default: // the reader fails after some bytes
+			fl.Data, fl.IOErr, what = data[:r.Intn(len(data)+1)], true, "read error after some bytes"
+			if chance(r, 0.3) {
+				fl.DataErr = true
+			}
+		}
+		files = append(files, fl)
+	}
+	if faulty < 0 {
+		what = "no fault"
+		ref = files
+		for _, f := range files {
+			ends, _ := c03Scan(f.Data)
+			complete += len(ends)
+		}
+		return
+	}
+	for f := 0; f < faulty; f++ {
+		ends, _ := c03Scan(files[f].Data)
+		complete += len(ends)
+		ref = append(ref, files[f])
+	}
+	var prefix []byte
+	if files[faulty].IOErr {
+		prefix = c03IOErrPrefix(files[faulty].Data)
+	} else if ends, _ := c03Scan(files[faulty].Data); len(ends) > 0 {
+		prefix = files[faulty].Data[:ends[len(ends)-1]]
+	}
+	ends, _ := c03Scan(prefix)
+	complete += len(ends)
+	ref = append(ref, File{Name: files[faulty].Name, Data: prefix})
+	return
+}
+
+func c03ShapeFilesMeta(files []File) string {
+	var sb strings.Builder
+	for _, f := range files {
+		fmt.Fprintf(&sb, "%s=%q", f.Name, f.Data)
+		if f.IOErr {
+			sb.WriteString("+read error")
+		}
+		sb.WriteString(" ")
+	}
+	return sb.String()
+}
+
+func c03ProgramShapes(r *rand.Rand, tier string, emit func(Case)) {
+	fields := []string{"class", "out", "file"}
+	nt := func(i Resp) bool { return i["class"] == "json" || (i["out"] != "-" && i["out"] != "") }
+	n := tierN(tier, 40, 500)
+	gid := 0
+	for round := 0; round < n; round++ {
+		for _, sh := range c03Shapes {
+			sh := sh
+			files, faulty, ref, complete, what := c03ShapeInput(r)
+			gid++
+			g := fmt.Sprintf("shape-%d", gid)
+			reached := faulty >= 0 && (sh.exitAt < 0 || complete < sh.exitAt)
+			faultyName := ""
+			if faulty >= 0 {
+				faultyName = files[faulty].Name
+			}
+			meta := metaProg(sh.prog, "shape", sh.kind, "files", c03ShapeFilesMeta(files), "fault", what, "complete values before the fault", strconv.Itoa(complete),
+				"row", sh.kind, "col", what)
+			emit(Case{ID: g + "/reference", Req: RunReq(sh.prog, nil, ref, false), Fields: fields, Group: g, NonTrivial: nt,
+				Meta: metaProg(sh.prog, "shape", sh.kind, "files", c03ShapeFilesMeta(ref), "role", "clean run on everything complete before the fault (reference of its group)"),
+				Oracle: func(i Resp) string {
+					if i["class"] != "ok" {
+						return "clean inputs, outcome " + i["class"] + " " + i["msg"]
+					}
+					return ""
+				}})
+			c := Case{ID: g + "/fault", Req: RunReq(sh.prog, nil, files, false), Fields: fields, Group: g, Meta: meta, NonTrivial: nt,
+				Oracle: func(i Resp) string {
+					switch {
+					case reached && i["class"] == "ok":
+						return fmt.Sprintf("the input has a fault (%s, file %s) that no exit keeps the run from reaching, but the run succeeds: the fault is not reported", what, faultyName)
+					case reached && i["class"] != "json":
+						return "faulty input, outcome " + i["class"] + " " + i["msg"] + " instead of a JSON input error"
+					case reached && string(i.Bytes("file")) != faultyName:
+						return fmt.Sprintf("JSON error names file %q, expected %q", i.Bytes("file"), faultyName)
+					case !reached && i["class"] != "ok":
+						return "no fault before the end of the run (clean input, or exit comes first), outcome " + i["class"] + " " + i["msg"]
+					}
+					return ""
+				},
+				GroupCheck: func(first, self Resp) string {
+					if self["class"] == "ok" {
+						if !reached && sh.exitAt >= 0 && complete >= sh.exitAt && string(self.Bytes("out")) != string(first.Bytes("out")) {
+							return fmt.Sprintf("the run exits before the fault: output %q, the run on the clean part prints %q", self.Bytes("out"), first.Bytes("out"))
+						}
+						return ""
+					}
+					return c03PrefixCheck(first, self)
+				}}
+			hasSched := false
+			for _, f := range files {
+				if f.DataErr {
+					hasSched = true
+				}
+			}
+			if hasSched {
+				plain := make([]File, len(files))
+				copy(plain, files)
+				for k := range plain {
+					plain[k].DataErr = false
+				}
+				c.ModelReq = RunReq(sh.prog, nil, plain, false)
+			}
+			emit(c)
+			// the same through the real binary (a directory stands for the unreadable file)
+			if os.Getenv("JQAWK_BIN") != "" && !hasSched && chance(r, 0.25) {
+				okCli := true
+				var disk []CliFile
+				argv := []string{sh.prog}
+				for _, f := range files {
+					switch {
+					case f.IOErr && len(f.Data) == 0:
+						disk = append(disk, CliFile{Name: f.Name, Dir: true})
+					case f.IOErr:
+						okCli = false
+					default:
+						disk = append(disk, CliFile{Name: f.Name, Data: f.Data})
+					}
+					argv = append(argv, f.Name)
+				}
+				if okCli {
+					nIn := len(files)
+					emit(Case{ID: g + "/binary", Req: CliReq(argv, nil, false, disk, ""), Fields: c14CliFields, Group: g, Meta: meta,
+						NonTrivial: c14NT,
+						Oracle: func(i Resp) string {
+							if w := c14Basic(i); w != "" {
+								return w
+							}
+							if i["exit"] == "" {
+								return ""
+							}
+							if reached && i["exit"] == "0" {
+								return fmt.Sprintf("the binary exits with status 0 although input %s is faulty (%s) and no exit comes first", faultyName, what)
+							}
+							if reached && !strings.Contains(string(i.Bytes("stderr")), faultyName) {
+								return fmt.Sprintf("the diagnostic %q does not name the faulty input %s", i.Bytes("stderr"), faultyName)
+							}
+							if !reached && i["exit"] != "0" {
+								return "no fault before the end of the run, exit status " + i["exit"] + ": " + short(string(i.Bytes("stderr")))
+							}
+							return ""
+						},
+						GroupCheck: func(first, self Resp) string {
+							if self["exit"] == "" {
+								return ""
+							}
+							if self["exit"] == "0" {
+								return c14CliVsLib(self, first, "", nIn)
+							}
+							return c03PrefixCheck(first, Resp{"class": "json", "out": self["out"]})
+						}})
+				}
+			}
+		}
+	}
+}
+
+func init() {
+	register(Family{
+		Name: "program-shapes", Prop: "C03",
+		Rule: "program SHAPES that never look at a value — only BEGIN rules (also with functions), only END rules, BEGIN and END, only functions, the empty program (blank, a comment), only BEGINFILE, only ENDFILE, only a pattern that is never true (false, 1 == 2, 0, \"\", null, body-less) — plus programs that leave by exit in a BEGIN rule (directly, in an if, through a function, with END rules present) or while the 1st/2nd/3rd value is processed, over 1-3 files of which the first / a middle / the last (or none) is faulty: corrupted, stray text, truncated inside a value, unreadable from the first byte, read error after some bytes (also in the same Read call as the last bytes); a quarter also through the REAL BINARY (a directory as the unreadable input). Compared with the model on class, out, file; oracle: the fault is reported (JSON error naming the faulty file, binary: exit status != 0 and the name in the diagnostic) UNLESS the run ended by exit before the faulty value was reached, counted with Go's own decoder; Group: the output equals that of the clean run on everything complete before the fault (minus END rules); matrix shape x fault",
+		Gen:  c03ProgramShapes,
+	})
+}
+
+// ---- selector-side-effects ------------------------------------------------------------------
+//
+// A stream is processed value by value, each value independently: a -r selector is evaluated
+// by a fresh nested evaluator for every value and every selector, so variables a selector
+// assigns (`$[n++]`, `x = x + 1`, `seen.push($.id)` on an unset `seen`) start unset every time.
+// The output for value k under selector s therefore equals the output of a run on value k alone
+// with selector s alone.
+
+// selectors with side effects on their own variables
+var c03SideSels = []string{
+	"$[n++]", "$[++n]", "$.list[n++]", "[n++, $.id]", "[$.id, n = n + 1]", "[x = x + 1, x = x + 1]", "$[i += 1]",
+	"{k: c++, v: $.id}", "[cnt, cnt = 5, cnt]", "[seen.push($.id), seen]", "[seen.push($.id), seen.length()]", "[seen.length(), seen.push(1), seen.length()]",
+	"match (c++) { 0 => $, _ => \"again\" }", "match (n++) { 0 => [$.id], _ => { next } }", "match (n++) { 0, 1 => $.list, _ => { exit } }",
+	"[o.k = $.id, o]", "[a[0] = $.id, a]", "match (first is unknown) { true => first = $.id, _ => [\"kept\", first] }",
+	"[t = t + \"x\", $.id]", "[n--, n--, n]", "$.list[k++] + $.list[k++]", "[done = !done, done]",
+	"[printf(\"sel\\n\"), m++, $.id]", "[$, y++][0]", "last = $", "[prev, prev = $.id]",
+	"match (seen is unknown) { true => seen = [$.id], _ => seen.push($.id) }", "[q = [q, $.id], q.length()]",
+	// and a few without side effects
+	"$", "$.list", "[$.id]", "$.id",
+}
+
+// programs whose rules keep no state between roots: the output of a stream is the
+// concatenation of the outputs of its roots
+var c03SideProgs = []string{
+	`{ print "v", $ }`,
+	// ($index is not printed: on a root that is not an array it keeps the value the last array left)
+	"BEGINFILE { print \"B\", $file, $ } { print \"v\", $ } ENDFILE { print \"E\", $ }",
+	`$ is number`,
+	"BEGINFILE { print \"B\" }\n$ is number { print \"num\", $ * 2 }\n$ is string { print \"str\", $ }\nENDFILE { print \"E\", $ }",
+	"BEGINFILE { n = 100; x = 7; seen = [0] }\n{ print \"v\", $, n, x, seen }",
+	"{ print \"v\", $, n, c, seen is unknown }",
+}
+
+func c03SideValue(r *rand.Rand, id int) string {
+	nl := 1 + r.Intn(4)
+	list := make([]string, nl)
+	for j := range list {
+		list[j] = strconv.Itoa(id*10 + j)
+	}
+	switch r.Intn(4) {
+	case 0: // an array of records
+		parts := make([]string, 2+r.Intn(3))
+		for j := range parts {
+			parts[j] = fmt.Sprintf(`{"id": %d, "j": %d}`, id, j)
+		}
+		return "[" + strings.Join(parts, ", ") + "]"
+	case 1: // an array of numbers
+		return "[" + strings.Join(list, ",") + "]"
+	default:
+		return fmt.Sprintf(`{"id": %d, "list": [%s]}`, id, strings.Join(list, ", "))
+	}
+}
+
+func c03SelectorSideEffects(r *rand.Rand, tier string, emit func(Case)) {
+	fields := []string{"class", "out", "file"}
+	n := tierN(tier, 600, 8000)
+	for i := 0; i < n; i++ {
+		prog := pick(r, c03SideProgs)
+		nv := 2 + r.Intn(5)
+		vals := make([]string, nv)
+		for k := range vals {
+			vals[k] = c03SideValue(r, k+1)
+		}
+		ns := pick(r, []int{1, 1, 1, 2, 2, 3})
+		sels := make([]string, ns)
+		for k := range sels {
+			sels[k] = pick(r, c03SideSels)
+		}
+		if ns >= 2 && chance(r, 0.3) {
+			sels[1] = sels[0] // the same selector twice: each has its own variables
+		}
+		// one file holding all values, or the values spread over two files
+		var files []File
+		sep := pick(r, []string{"\n", " ", "\n\n"})
+		cut := nv
+		if nv >= 3 && chance(r, 0.3) {
+			cut = 1 + r.Intn(nv-1)
+			files = []File{{Name: "a.jsonl", Data: []byte(strings.Join(vals[:cut], sep))}, {Name: "b.jsonl", Data: []byte(strings.Join(vals[cut:], sep) + "\n")}}
+		} else {
+			files = []File{{Name: "a.jsonl", Data: []byte(strings.Join(vals, sep))}}
+		}
+		// what the values print one at a time: value k alone under all the selectors (computed
+		// with the implementation itself on ONE value). A marker END rule tells whether the run
+		// on that value ended by exit (in a selector): then nothing follows
+		const endMark = "<<end of the run>>\n"
+		markProg := prog + "\nEND { print \"<<end of the run>>\" }"
+		var want, wantBySel strings.Builder
+		wantClass := "ok"
+		bySel := true // also: each selector alone, where no selector fails, prints or leaves
+		for _, s := range sels {
+			if strings.Contains(s, "printf") || strings.Contains(s, "exit") || strings.Contains(s, "next") {
+				bySel = false
+			}
+		}
+		for k, v := range vals {
+			name := files[0].Name
+			if k >= cut {
+				name = files[1].Name
+			}
+			one := ParseResp(implAnswer(RunReq(markProg, sels, []File{{Name: name, Data: []byte(v)}}, false)))
+			out := string(one.Bytes("out"))
+			want.WriteString(strings.TrimSuffix(out, endMark))
+			if one["class"] != "ok" {
+				wantClass = one["class"]
+				bySel = false
+				break
+			}
+			if !strings.HasSuffix(out, endMark) {
+				break // left by exit
+			}
+			for _, s := range sels {
+				if !bySel {
+					break
+				}
+				single := ParseResp(implAnswer(RunReq(prog, []string{s}, []File{{Name: name, Data: []byte(v)}}, false)))
+				wantBySel.Write(single.Bytes("out"))
+				if single["class"] != "ok" {
+					bySel = false
+				}
+			}
+		}
+		if bySel && wantBySel.String() != want.String() {
+			got, alone := want.String(), wantBySel.String()
+			emit(Case{Req: RunReq(prog, sels, files, false), ImplOnly: true,
+				Meta: metaProg(prog, "selectors", strings.Join(sels, " | "), "files", c03ShapeFilesMeta(files)),
+				Oracle: func(Resp) string {
+					return fmt.Sprintf("the values one at a time under all selectors print %q, under each selector alone %q: a selector's variables are seen by another selector", got, alone)
+				}})
+		}
+		expOut, expClass := want.String(), wantClass
+		emit(Case{Req: RunReq(prog, sels, files, false), Fields: fields,
+			Meta: metaProg(prog, "selectors", strings.Join(sels, " | "), "files", c03ShapeFilesMeta(files), "expected (roots one at a time)", expClass+" "+strconv.Quote(expOut)),
+			Oracle: func(i Resp) string {
+				switch i["class"] {
+				case "ok", "runtime":
+				default:
+					return "outcome class " + i["class"] + " " + i["msg"]
+				}
+				if i["class"] != expClass {
+					return fmt.Sprintf("class %s; the values processed one after another, each alone, give %s", i["class"], expClass)
+				}
+				if got := string(i.Bytes("out")); got != expOut {
+					return fmt.Sprintf("the stream prints %q; its values processed one at a time (each value alone) print %q: a selector's variables survived from one value to the next", got, expOut)
+				}
+				return ""
+			}})
+	}
+}
+
+func init() {
+	register(Family{
+		Name: "selector-side-effects", Prop: "C03",
+		Rule: "streams of 2-6 values (records with an id and a list, arrays of records, arrays of numbers; one file or spread over two) under 1-3 -r selectors WITH SIDE EFFECTS on their own variables — $[n++], $[++n], x = x + 1 twice, i += 1, c++ in an object literal, seen.push($.id) on an unset seen, assignments to members / elements of unset variables, match (n++) with next / exit arms, a printf inside the selector, prev = $.id — also the same selector twice, and rule programs that keep no state between roots (two of them use the selector's variable names themselves); compared with the model (a fresh nested evaluator per value and selector) on class, out, file; oracle: the output equals the concatenation of the outputs of runs on each value ALONE (up to the first failure / exit), and, where no selector fails, prints or leaves, of runs on each value alone under each selector ALONE",
+		Gen:  c03SelectorSideEffects,
+	})
+}
